@@ -309,9 +309,29 @@ def evaluate(rule, prog, scope, ledger_name, floor):
         bad_now = {k for lab, gs, k in e_now if c_now[(lab, gs)] > c_old[(lab, gs)]}
         leaf_old = {k for _, _, k in e_old}
         leaf_now = {k for _, _, k in e_now}
+        # call sites: the same call (same callee, same conditions) in the same function family is the same site, whichever closure of the
+        # family it sits in (closures are numbered in source order, so adding or removing one renumbers the others)
+        def csig(fn, label, gs):
+            root = re.sub(r'(::\{closure#\d+\})+$', '', fn)
+            return (root, label, tuple(sorted(_abstract(canon(_norm_elem(g, fn))) for g in gs if not _LOOP_HAS_NEXT.match(g))))
+        old_sites = _old_sites(led)
+        c_old_calls = Counter(csig(v['fn'], v['label'], v['guards']) for k, v in old_sites.items() if v['kind'] == 'C' and k not in seen)
+        c_now_calls = Counter(csig(v['fn'], v['meta'].get('label'), v['guards']) for k, v in now.items() if v['meta'].get('kind') == 'C' and k not in led)
         kept = []
         for k, sp, txt in findings:
             what, key = k.split(':', 1)
+            if what == 'rule-site-removed' and key in old_sites and old_sites[key]['kind'] == 'C':
+                sg = csig(old_sites[key]['fn'], old_sites[key]['label'], old_sites[key]['guards'])
+                if c_now_calls.get(sg, 0) >= c_old_calls.get(sg, 0):
+                    continue
+            if what == 'unrecorded-rule-site' and key in now and now[key]['meta'].get('kind') == 'C':
+                sg = csig(now[key]['fn'], now[key]['meta'].get('label'), now[key]['guards'])
+                if c_old_calls.get(sg, 0) >= c_now_calls.get(sg, 0):
+                    continue
+            if what == 'unrecorded-rule-site' and key in now and now[key]['meta'].get('kind') == 'R' and _adapter_of(prog, now[key]['fn']) in ('any', 'all'):
+                # a new predicate closure handed to any()/all(): its verdict is a bool the enclosing function has to branch on, and that
+                # branch is in the conditions of whatever it guards - the closure by itself decides nothing
+                continue
             if what == 'rule-site-removed' and key in leaf_old and key not in bad_old:
                 continue
             if what == 'unrecorded-rule-site' and key in leaf_now and key not in bad_now:
@@ -343,6 +363,22 @@ def _old_sites(led):
             callee = cands[0] if len(cands) == 1 else None
         out[k] = {'guards': v['guards'], 'fn': fn, 'kind': kind, 'label': label, 'callee': callee}
     return out
+
+
+def _adapter_of(prog, fnpath):
+    """name of the call the closure `fnpath` is handed to in its enclosing function (an iterator adapter, usually), or None"""
+    m = re.match(r'^(.*)::\{closure#\d+\}$', fnpath)
+    if not m or m.group(1) not in prog.fns or fnpath not in prog.fns:
+        return None
+    from helpers import closure_of_arg
+    parent, me = prog.fns[m.group(1)], prog.fns[fnpath]
+    for c in parent.calls():
+        if parent.blocks[c.bb].get('cleanup'):
+            continue
+        for a in c.args:
+            if closure_of_arg(prog, parent, a) is me:
+                return c.name()
+    return None
 
 
 def _balanced_end(t, i):
@@ -416,7 +452,7 @@ def _abstract(g, keep=2):
 
 
 # `for` loop bookkeeping (the iterator yielded another element): a closure handed to for_each has no such condition
-_LOOP_HAS_NEXT = re.compile(r'^next\(into_iter\(.*\)\) is Some$')
+_LOOP_HAS_NEXT = re.compile(r'^next\(into_iter\(.*\)\) is (Some|None)$|^next\(.*\) is not Some$')
 
 
 def _effective(sites):
